@@ -62,8 +62,14 @@ class FakeNet:
         self.sock_faults = {}        # (call, kind, nth) -> fault dict
         self.reply_faults = {}       # (call, j) -> fault dict
         self.tampered_calls = set()
-        self.pieces = list(pieces) if pieces else [1 << 30]
-        self.eintr = list(eintr) if eintr else [False]
+        pieces = list(pieces) if pieces else [1 << 30]
+        eintr = list(eintr) if eintr else [False]
+        # delivery schedule: piece sizes, with "EINTR" entries where a recv is interrupted first; cycled
+        self.schedule = []
+        for i, p in enumerate(pieces):
+            if eintr[i % len(eintr)]:
+                self.schedule.append("EINTR")
+            self.schedule.append(p)
         self._pi = 0
         self._sock_seq = 0
         self.hook = None             # optional callable(kind, sock) invoked at every socket event (scheduler yield point)
@@ -166,9 +172,13 @@ class FakeNet:
         return self.servers.get(key)
 
     def next_piece(self):
+        """-> (piece size, interrupted?)"""
         i = self._pi
         self._pi += 1
-        return self.pieces[i % len(self.pieces)], self.eintr[i % len(self.eintr)]
+        item = self.schedule[i % len(self.schedule)]
+        if item == "EINTR":
+            return 0, True
+        return item, False
 
     def open_sockets(self):
         return [s for s in self.sockets if not s.closed]
